@@ -385,7 +385,19 @@ def _is_repo_error(idx, t):
 # R7: relative references are self-consistent and fit their encoding, over gap classes
 # --------------------------------------------------------------------------------------------------
 
-def relative_case(idx, mnem, direction, lo, hi, out):
+class _SplitBudget(Exception):
+    pass
+
+
+SPLIT_BUDGET = 400      # the repaired tree needs about 15 classes per (mnemonic, direction)
+
+
+def relative_case(idx, mnem, direction, lo, hi, out, budget=None):
+    if budget is None:
+        budget = [0]
+    budget[0] += 1
+    if budget[0] > SPLIT_BUDGET:
+        raise _SplitBudget('gap classes [%d,%d]: more than %d interval splits' % (lo, hi, SPLIT_BUDGET))
     B = Builder(idx)
     lab = B.label('L')
     ins = B.ref(mnem, 'L')
@@ -397,16 +409,16 @@ def relative_case(idx, mnem, direction, lo, hi, out):
         if lo == hi:
             raise AnalysisBroken('cannot decide gap class {%d}: %s' % (lo, e))
         mid = _split_point(e, lo, hi)
-        relative_case(idx, mnem, direction, lo, mid, out)
-        relative_case(idx, mnem, direction, mid + 1, hi, out)
+        relative_case(idx, mnem, direction, lo, mid, out, budget)
+        relative_case(idx, mnem, direction, mid + 1, hi, out, budget)
         return
     size = B.I.invoke(B.I.resolve_method(ins, 'getSize', None), ins, [])
     if not (isinstance(size, IV) and size.concrete()):
         if lo == hi:
             raise AnalysisBroken('size not concrete for a singleton gap')
         mid = (lo + hi) // 2
-        relative_case(idx, mnem, direction, lo, mid, out)
-        relative_case(idx, mnem, direction, mid + 1, hi, out)
+        relative_case(idx, mnem, direction, lo, mid, out, budget)
+        relative_case(idx, mnem, direction, mid + 1, hi, out, budget)
         return
     op = ins.fields['labelValue']
     off = ins.fields['byteOffset']
@@ -420,8 +432,8 @@ def relative_case(idx, mnem, direction, lo, hi, out):
         V = IV(32, True, op.lo, op.hi, bits_of_interval(32, op.lo, op.hi) if (op.lo < 0) == (op.hi < 0) else None, 'input')
         if V.bits is None:
             mid = (lo + hi) // 2
-            relative_case(idx, mnem, direction, lo, mid, out)
-            relative_case(idx, mnem, direction, mid + 1, hi, out)
+            relative_case(idx, mnem, direction, lo, mid, out, budget)
+            relative_case(idx, mnem, direction, mid + 1, hi, out, budget)
             return
         ins.fields['labelValue'] = V
         emit = idx.func('hexasm::CodeGen::emitProgramBin')
@@ -490,7 +502,12 @@ def rule_relative(rep, idx, tier):
     for m in mnems:
         for direction in ('fwd', 'bwd'):
             out = []
-            relative_case(idx, m, direction, 0, MAXG, out)
+            try:
+                relative_case(idx, m, direction, 0, MAXG, out)
+            except _SplitBudget as e:
+                # the layout depends on the gap in a way interval splitting does not resolve (e.g. on its residue mod 4): no verdict
+                rep.undecided('R7', '%s:%s' % (m, direction), 'not uniform on any interval of gaps: %s' % e, where)
+                continue
             for lo, hi, size, consistent, fits, reach, lv, detail, op in out:
                 key = '%s:%s:gap%s' % (m, direction, cls_of(lo, hi))
                 ok = consistent and fits
